@@ -112,6 +112,23 @@ func TbsMaxSameAssertion(m *testsmellgen.Method) (int, string) {
 	return best, prefix
 }
 
+// TbsSharedClassNames returns the simple names carried by more than one test class of the tree.
+func TbsSharedClassNames(t *testsmellgen.Tree) map[string]bool {
+	n := map[string]int{}
+	for _, f := range t.Files {
+		if f.IsTest() {
+			n[f.Class]++
+		}
+	}
+	out := map[string]bool{}
+	for c, k := range n {
+		if k > 1 {
+			out[c] = true
+		}
+	}
+	return out
+}
+
 // TbsExpected derives the expected findings of a tree from the planted evidence.
 func TbsExpected(t *testsmellgen.Tree) []TbsExpect {
 	var out []TbsExpect
@@ -326,6 +343,14 @@ func TbsCheck(t *testsmellgen.Tree, observed []TbsFinding, relOf func(fileName s
 	for _, e := range expected {
 		st.Planted[e.Type]++
 	}
+	// test classes whose simple name is used by a test class of another package as well
+	sharedName := TbsSharedClassNames(t)
+	nameNote := func(f *testsmellgen.File, sig string) string {
+		if sharedName[f.Class] && (strings.HasPrefix(sig, "unknowntest-") || strings.HasPrefix(sig, "duplicateasserttest-")) {
+			return sig + "+class-name-also-used-in-another-package"
+		}
+		return sig
+	}
 	// observed findings per file
 	obsByFile := map[string][]TbsFinding{}
 	for _, o := range observed {
@@ -509,13 +534,13 @@ func TbsCheck(t *testsmellgen.Tree, observed []TbsFinding, relOf func(fileName s
 				w, g := len(wantBy[m]), gotBy[m]
 				for k := w; k < g; k++ {
 					reported++
-					add(tbsExtraSig(typ, f, m, w > 0), "%s: %d %s expected in the file, %d reported; surplus one on method %s (line %d, annotated %s, %d calls: %s)",
+					add(nameNote(f, tbsExtraSig(typ, f, m, w > 0)), "%s: %d %s expected in the file, %d reported; surplus one on method %s (line %d, annotated %s, %d calls: %s)",
 						f.RelPath, len(want), typ, len(got), m.Name, m.DeclLine, m.AnnoClass(), len(m.Calls), tbsKinds(m))
 				}
 				for k := g; k < w; k++ {
 					reported++
 					e := wantBy[m][k]
-					add(tbsMissingSig(typ, f, m, &e), "%s: %d %s expected in the file, %d reported; none for method %s (line %d, annotated %s, %d calls: %s)",
+					add(nameNote(f, tbsMissingSig(typ, f, m, &e)), "%s: %d %s expected in the file, %d reported; none for method %s (line %d, annotated %s, %d calls: %s)",
 						f.RelPath, len(want), typ, len(got), m.Name, m.DeclLine, m.AnnoClass(), len(m.Calls), tbsKinds(m))
 				}
 			}
